@@ -66,42 +66,54 @@ func c30TryAcquireInPlace(c *core.Ctx, f *core.FuncInfo) {
 			c.Check(ok, "true only after commit", "T2 Dominates", posOf(rp), "returns true only after committing", "returns true without committing "+short(comp)+": "+f.DescribePath(path))
 		}
 	}
-	c30Refusals(c, f, func(comp string) string { return "max." + comp + " - held." + comp + " - req." + comp + " + 1 <= 0" }, name)
+	c30Refusals(c, f, func(comp string) []string {
+		return []string{"max." + comp + " - held." + comp + " - req." + comp + " + 1 <= 0"}
+	}, name)
 }
 
 // c30Refusals: a fitting request is granted at once, so tryAcquire may return false only over an edge
 // that establishes, for some component, that the request does not fit (overWant(comp), linear normal
 // form over the roles of name). Its results must be the constants true / false, so that the edges
 // decide the result.
-func c30Refusals(c *core.Ctx, f *core.FuncInfo, overWant func(comp string) string, name func(c30Access) string) {
+func c30Refusals(c *core.Ctx, f *core.FuncInfo, overWants func(comp string) []string, name func(c30Access) string) {
 	sc := &c30Scope{F: f}
 	var ws []core.LinCmp
 	for _, comp := range []string{"Metric.Num", "Metric.Size"} {
-		ws = append(ws, core.ParseLinCmp(overWant(comp)))
+		for _, w := range overWants(comp) {
+			ws = append(ws, core.ParseLinCmp(w))
+		}
 	}
+	atom := c30AccessNamer(name)
 	n := 0
 	for _, rp := range f.ReturnPoints() {
 		ret, _ := rp.Node().(*ast.ReturnStmt)
+		var res ast.Expr
 		var val constant.Value
 		if ret != nil && len(ret.Results) == 1 {
-			val, _ = core.ConstVal(f.Info(), ret.Results[0])
+			res = ret.Results[0]
+			val, _ = core.ConstVal(f.Info(), res)
 		}
+		resultDecides := false
 		if val == nil || val.Kind() != constant.Bool {
-			c.Undecided("result of tryAcquire is a constant", "T4 GuardedBy", posOf(rp), "the result returned here is not the constant true or false: the edges taken do not decide it")
-			continue
-		}
-		if constant.BoolVal(val) {
+			// not a constant: the result of a helper (held in a local or called in place) whose returns
+			// decide it; the false result must itself establish that the request does not fit
+			if res != nil {
+				if _, _, isCall := c30CallOfBool(f, res); isCall {
+					resultDecides = c30ImpliesAny(sc, core.Fact{Expr: res, Truth: false}, ws, atom, 2)
+				}
+			}
+			if !resultDecides {
+				c.Undecided("result of tryAcquire is a constant", "T4 GuardedBy", posOf(rp), "the result returned here is neither the constant true or false nor a boolean whose false value establishes that the request does not fit: the edges taken do not decide it")
+				continue
+			}
+		} else if constant.BoolVal(val) {
 			continue
 		}
 		n++
-		ok, path := f.GuardedBy(rp, func(ft core.Fact) bool {
-			for _, w := range ws {
-				if c30Implies(sc, ft, w, name, 2) {
-					return true
-				}
-			}
-			return false
-		})
+		ok, path := resultDecides, []core.Point(nil)
+		if !ok {
+			ok, path = f.GuardedBy(rp, func(ft core.Fact) bool { return c30ImpliesAny(sc, ft, ws, atom, 2) })
+		}
 		c.Check(ok, "refusal only when the request does not fit", "T4 GuardedBy", posOf(rp),
 			"false is returned only over an edge establishing that some component of held + request exceeds the capacity",
 			"a request can be refused although it fits: "+f.DescribePath(path))
